@@ -40,22 +40,22 @@ package statsd
 //@   loop 2 invariant n == len(timer.Values) && n >= 1 && (n == 1 ==> sum == timer.Values[0] && mean == timer.Values[0] && sumSquares == timer.Values[0] * timer.Values[0] && thresholdBoundary == timer.Values[0])
 //@   loop 3 invariant 0 <= i && i <= n && sumOfDiffs == pdev(elems(timer.Values), off(timer.Values), i, mean)
 //@   callsite Set requires numInThreshold == kSpec(pct, n) && numInThreshold != 0
-//@   callsite Set#1 requires f == real(kSpec(pct, n))
-//@   callsite Set#1 requires 1 <= kSpec(pct, n) && kSpec(pct, n) <= n && (n == 1 ==> kSpec(pct, n) == 1)
-//@   callsite Set#1 requires n > 1 ==> cumulativeValues[n - 1] == psum(elems(timer.Values), off(timer.Values), n) && cumulSumSquaresValues[n - 1] == psumsq(elems(timer.Values), off(timer.Values), n)
-//@   callsite Set#1 requires n > 1 && pct > 0.0 ==> cumulativeValues[kSpec(pct, n) - 1] == psum(elems(timer.Values), off(timer.Values), kSpec(pct, n)) && cumulSumSquaresValues[kSpec(pct, n) - 1] == psumsq(elems(timer.Values), off(timer.Values), kSpec(pct, n))
-//@   callsite Set#1 requires n > 1 && pct <= 0.0 && kSpec(pct, n) < n ==> cumulativeValues[n - kSpec(pct, n) - 1] == psum(elems(timer.Values), off(timer.Values), n - kSpec(pct, n)) && cumulSumSquaresValues[n - kSpec(pct, n) - 1] == psumsq(elems(timer.Values), off(timer.Values), n - kSpec(pct, n))
-//@   callsite Set#1 requires n > 1 && pct <= 0.0 && kSpec(pct, n) < n ==> psum(elems(timer.Values), off(timer.Values), n) == psum(elems(timer.Values), off(timer.Values), n - kSpec(pct, n)) + psum(elems(timer.Values), off(timer.Values) + n - kSpec(pct, n), kSpec(pct, n))
-//@   callsite Set#1 requires n > 1 && pct <= 0.0 && kSpec(pct, n) < n ==> psumsq(elems(timer.Values), off(timer.Values), n) == psumsq(elems(timer.Values), off(timer.Values), n - kSpec(pct, n)) + psumsq(elems(timer.Values), off(timer.Values) + n - kSpec(pct, n), kSpec(pct, n))
-//@   callsite Set#1 requires n == 1 ==> psum(elems(timer.Values), off(timer.Values), 1) == timer.Values[0] && psumsq(elems(timer.Values), off(timer.Values), 1) == timer.Values[0] * timer.Values[0]
-//@   callsite Set#1 requires pct > 0.0 ==> sum == psum(elems(timer.Values), off(timer.Values), kSpec(pct, n)) && sumSquares == psumsq(elems(timer.Values), off(timer.Values), kSpec(pct, n))
-//@   callsite Set#1 requires pct <= 0.0 ==> sum == psum(elems(timer.Values), off(timer.Values) + n - kSpec(pct, n), kSpec(pct, n)) && sumSquares == psumsq(elems(timer.Values), off(timer.Values) + n - kSpec(pct, n), kSpec(pct, n))
-//@   callsite Set#1 requires mean == sum / real(kSpec(pct, n))
-//@   callsite Set#2 requires f == mean
-//@   callsite Set#3 requires f == sum
-//@   callsite Set#4 requires f == sumSquares
-//@   callsite Set#5 requires pct > 0.0 && f == timer.Values[kSpec(pct, n) - 1]
-//@   callsite Set#6 requires pct <= 0.0 && f == timer.Values[n - kSpec(pct, n)]
+//@   callsite Set[pctStruct.count,] requires f == real(kSpec(pct, n))
+//@   callsite Set[pctStruct.count,] requires 1 <= kSpec(pct, n) && kSpec(pct, n) <= n && (n == 1 ==> kSpec(pct, n) == 1)
+//@   callsite Set[pctStruct.count,] requires n > 1 ==> cumulativeValues[n - 1] == psum(elems(timer.Values), off(timer.Values), n) && cumulSumSquaresValues[n - 1] == psumsq(elems(timer.Values), off(timer.Values), n)
+//@   callsite Set[pctStruct.count,] requires n > 1 && pct > 0.0 ==> cumulativeValues[kSpec(pct, n) - 1] == psum(elems(timer.Values), off(timer.Values), kSpec(pct, n)) && cumulSumSquaresValues[kSpec(pct, n) - 1] == psumsq(elems(timer.Values), off(timer.Values), kSpec(pct, n))
+//@   callsite Set[pctStruct.count,] requires n > 1 && pct <= 0.0 && kSpec(pct, n) < n ==> cumulativeValues[n - kSpec(pct, n) - 1] == psum(elems(timer.Values), off(timer.Values), n - kSpec(pct, n)) && cumulSumSquaresValues[n - kSpec(pct, n) - 1] == psumsq(elems(timer.Values), off(timer.Values), n - kSpec(pct, n))
+//@   callsite Set[pctStruct.count,] requires n > 1 && pct <= 0.0 && kSpec(pct, n) < n ==> psum(elems(timer.Values), off(timer.Values), n) == psum(elems(timer.Values), off(timer.Values), n - kSpec(pct, n)) + psum(elems(timer.Values), off(timer.Values) + n - kSpec(pct, n), kSpec(pct, n))
+//@   callsite Set[pctStruct.count,] requires n > 1 && pct <= 0.0 && kSpec(pct, n) < n ==> psumsq(elems(timer.Values), off(timer.Values), n) == psumsq(elems(timer.Values), off(timer.Values), n - kSpec(pct, n)) + psumsq(elems(timer.Values), off(timer.Values) + n - kSpec(pct, n), kSpec(pct, n))
+//@   callsite Set[pctStruct.count,] requires n == 1 ==> psum(elems(timer.Values), off(timer.Values), 1) == timer.Values[0] && psumsq(elems(timer.Values), off(timer.Values), 1) == timer.Values[0] * timer.Values[0]
+//@   callsite Set[pctStruct.count,] requires pct > 0.0 ==> sum == psum(elems(timer.Values), off(timer.Values), kSpec(pct, n)) && sumSquares == psumsq(elems(timer.Values), off(timer.Values), kSpec(pct, n))
+//@   callsite Set[pctStruct.count,] requires pct <= 0.0 ==> sum == psum(elems(timer.Values), off(timer.Values) + n - kSpec(pct, n), kSpec(pct, n)) && sumSquares == psumsq(elems(timer.Values), off(timer.Values) + n - kSpec(pct, n), kSpec(pct, n))
+//@   callsite Set[pctStruct.count,] requires mean == sum / real(kSpec(pct, n))
+//@   callsite Set[pctStruct.mean,] requires f == mean
+//@   callsite Set[pctStruct.sum,] requires f == sum
+//@   callsite Set[pctStruct.sumSquares,] requires f == sumSquares
+//@   callsite Set[pctStruct.upper,] requires pct > 0.0 && f == timer.Values[kSpec(pct, n) - 1]
+//@   callsite Set[pctStruct.lower,] requires pct <= 0.0 && f == timer.Values[n - kSpec(pct, n)]
 //@   ensures  [stats] key in a.metricMap.Timers && tagsKey in a.metricMap.Timers[key] && a.metricMap.Timers[key][tagsKey].Values == timer.Values
 //@   ensures  [stats] !histTag(timer.Tags) && len(timer.Values) > 0 ==> a.metricMap.Timers[key][tagsKey].Min == timer.Values[0] && a.metricMap.Timers[key][tagsKey].Max == timer.Values[len(timer.Values) - 1]
 //@   ensures  [stats] !histTag(timer.Tags) && len(timer.Values) > 0 ==> a.metricMap.Timers[key][tagsKey].Sum == psum(elems(timer.Values), off(timer.Values), len(timer.Values)) && a.metricMap.Timers[key][tagsKey].SumSquares == psumsq(elems(timer.Values), off(timer.Values), len(timer.Values))
